@@ -844,7 +844,7 @@ def replay(prop, path, seed):
         print("replay: unknown family %r in %s" % (fam, path))
         return 3
     exe = builders[fam]()
-    crash_prop = ctx.prop if fam == "opt" else None
+    crash_prop = ctx.prop
     replay_and_validate(ctx, exe, [cmds], ctx.tracespec, ctx.env_flags, label="r", crash_prop=crash_prop)
     if fam == "opt" and any(c.get("op") == "evaluate_mt" for c in cmds):
         tsan = vbuild.opt_replay(extra_flags=["-fsanitize=thread", "-O1", "-g"], link_flags=["-fsanitize=thread"], name="opt_replay_tsan")
